@@ -304,6 +304,8 @@ func runWitnesses(ks []*KnownFinding) []string {
 		return nil
 	}
 	var b strings.Builder
+	b.WriteString("//import github.com/robertkrimen/otto/parser\n//import github.com/robertkrimen/otto/ast\n")
+	b.WriteString("\t\tvar _ = parser.ParseFile\n\t\tvar _ ast.Node\n")
 	b.WriteString("\t\tvar outs []interface{}\n")
 	for _, k := range ks {
 		if k.Go != "" {
